@@ -11,4 +11,5 @@ Extraction "c19_model.ml"
   C19.c19_from_topology C19.c19_read_ugrid C19.c19_grid_init
   C19.c19_read_table C19.c19_table_of
   C19.c19_to_xarray_ugrid C19.c19_to_xarray_table C19.c19_export_geo
+  C19.c19_srun C19.c19_sstep C19.c19_changed_roots C19.c19_sflags_current
   C19.c19_alias_table C19.c19_modified C19.c19_ds_bufs C19.c19_buf_data C19.c19_var_buf.
